@@ -232,7 +232,7 @@ Qed.
 
 (* the mapping side re-derives exactly the creator's class from the header the creator wrote *)
 Lemma map_fbl_after_create m m' off num cpb memLen :
-  0 <= off -> 0 <= memLen -> memLen + c_bufferListHeaderSize < 4294967296 ->
+  0 <= off -> 0 <= memLen -> memLen < 4294967296 ->
   1 <= num -> 1 <= cpb ->
   off + c_bufferListHeaderSize + num * (cpb + c_bufferHeaderSize) <= memLen ->
   (forall a, off <= a < off + c_bufferListHeaderSize ->
@@ -359,7 +359,7 @@ Proof.
   - intros _. exact Hoff'.
   - intros m2 Hm2. cbn [length map_loop]. rewrite (w32_small off) by lia.
     rewrite (map_fbl_after_create m m2 off num size memLen) by
-      (try lia; try (subst P; exact Hfit);
+      (try (consts; lia); try (subst P; exact Hfit);
        intros a Ha; rewrite Hm2 by (consts; lia); rewrite Hframe by (consts; lia); subst m1; subst P; reflexivity).
     unfold mk_class at 1 2. cbn [cl_cap cl_capPerBuffer].
     rewrite HA.
@@ -602,14 +602,12 @@ Definition queue_at (base cap : Z) : queue :=
      q_hi := base + (c_queueHeaderLength + c_queueElementLen * cap) |}.
 
 Lemma map_q_eq base dataLen dataCap m cap :
-  0 <= cap -> c_queueHeaderLength + c_queueElementLen * cap < 4294967296 ->
+  0 <= cap ->
   m base = cap -> c_queueHeaderLength + c_queueElementLen * cap <= dataLen -> dataLen <= dataCap ->
   map_q base dataLen dataCap m = Ok (queue_at base cap).
 Proof.
-  intros Hcap Hguard Hm Hlen Hcapd. unfold map_q. rewrite Hm.
+  intros Hcap Hm Hlen Hcapd. unfold map_q. rewrite Hm.
   destruct (dataLen <=? 0) eqn:E0; [consts; lia|].
-  rewrite (w32_small (cap * _)) by (consts; lia).
-  rewrite w32_small by (consts; lia).
   cbn [existsb].
   destruct ((dataLen <=? off_map_queue_head) || ((dataLen <=? off_map_queue_tail) || ((dataLen <=? off_map_queue_workingFlag) || false))) eqn:E1;
     [consts; lia|].
@@ -623,11 +621,11 @@ Definition create_q_mem (m : mem) (base cap : Z) : mem :=
       (base + off_map_queue_workingFlag) 0.
 
 Lemma create_q_eq base dataLen dataCap m cap :
-  0 <= cap -> c_queueHeaderLength + c_queueElementLen * cap < 4294967296 ->
+  0 <= cap < 4294967296 ->
   c_queueHeaderLength + c_queueElementLen * cap <= dataLen -> dataLen <= dataCap ->
   create_q base dataLen dataCap cap m = Ok (queue_at base cap, create_q_mem m base cap).
 Proof.
-  intros Hcap Hguard Hlen Hcapd. unfold create_q.
+  intros Hcap Hlen Hcapd. unfold create_q.
   destruct (dataLen <=? 0) eqn:E0; [consts; lia|].
   rewrite (w32_small cap) by (consts; lia).
   rewrite (map_q_eq base dataLen dataCap _ cap) by (try lia; apply upd_same).
@@ -653,10 +651,10 @@ Qed.
 
 Lemma queues_spec_gen cs cr ms mr cap m :
   cross_wired cs cr ms mr ->
-  0 <= cap -> c_queueHeaderLength + c_queueElementLen * cap < 4294967296 ->
+  0 <= cap < 4294967296 ->
   queues_result_ok_of (create_qm_gen cs cr) (map_qm_gen ms mr) cap m.
 Proof.
-  intros (-> & -> & Hw) Hcap Hguard.
+  intros (-> & -> & Hw) Hcap.
   remember (c_queueHeaderLength + c_queueElementLen * cap) as half.
   assert (Hhalf : c_queueHeaderLength <= half) by (consts; lia).
   assert (Hms : queue_mem_size cap * c_queueCount = half * 2) by (unfold queue_mem_size; consts; lia).
@@ -700,13 +698,11 @@ Proof.
     repeat split; consts; lia.
 Qed.
 
-Lemma queues_spec cap m :
-  0 <= cap -> c_queueHeaderLength + c_queueElementLen * cap < 4294967296 -> queues_result_ok cap m.
-Proof. intros. unfold queues_result_ok, create_qm, map_qm. apply queues_spec_gen; [exact wiring_file|lia|lia]. Qed.
+Lemma queues_spec cap m : 0 <= cap < 4294967296 -> queues_result_ok cap m.
+Proof. intros. unfold queues_result_ok, create_qm, map_qm. apply queues_spec_gen; [exact wiring_file|lia]. Qed.
 
-Lemma queues_spec_memfd cap m :
-  0 <= cap -> c_queueHeaderLength + c_queueElementLen * cap < 4294967296 -> queues_result_ok_memfd cap m.
-Proof. intros. unfold queues_result_ok_memfd, create_qm_memfd, map_qm_memfd. apply queues_spec_gen; [exact wiring_memfd|lia|lia]. Qed.
+Lemma queues_spec_memfd cap m : 0 <= cap < 4294967296 -> queues_result_ok_memfd cap m.
+Proof. intros. unfold queues_result_ok_memfd, create_qm_memfd, map_qm_memfd. apply queues_spec_gen; [exact wiring_memfd|lia]. Qed.
 
 (* ---------------------------------------------------------------------------------------------- *)
 (* the full statements (inputs range over what the Go types allow) and the proved parts *)
@@ -812,18 +808,20 @@ Proof.
   specialize (H wit_caseB wit_mem zero_mem _ _ Hm Hu Hp Hc). rewrite Hmap in H. discriminate H.
 Qed.
 
-(* queues: 24 + 12*cap = 2^32 + 8: the uint32 end offset is 8 < 24, the slice expression panics *)
-Lemma queues_refuted : ~ queues_full.
-Proof.
-  intros H. destruct (H 357913940 zero_mem ltac:(lia)) as (A & ms & m' & B & Hc & _).
-  vm_compute in Hc. discriminate Hc.
-Qed.
+(* queues: since 97d22d3 (ring end computed in int) the full statement holds for every uint32 capacity *)
+Definition queues_full_memfd : Prop :=
+  forall cap m, 0 <= cap < 4294967296 -> queues_result_ok_memfd cap m.
+Lemma queues_full_holds : queues_full.
+Proof. intros cap m H. apply queues_spec. exact H. Qed.
+Lemma queues_full_memfd_holds : queues_full_memfd.
+Proof. intros cap m H. apply queues_spec_memfd. exact H. Qed.
 
-(* 24 + 12*cap = 2^32 + 32: no panic, but a "357913942-entry" ring of 8 bytes *)
-Lemma queues_short_ring :
-  exists A ms m', create_qm 357913942 zero_mem = Ok (A, ms, m') /\
-                  q_cap (qm_send A) = 357913942 /\ q_hi (qm_send A) - q_lo (qm_send A) = 8.
-Proof. do 3 eexists. split; [vm_compute; reflexivity|]. split; reflexivity. Qed.
+(* regression: what the uint32 formula used before 97d22d3 gave — an end below the 24-byte header
+   (slice bounds panic) for cap = 357913940, and a "357913942-entry" ring of 8 bytes *)
+Lemma ring_end_uint32_regression :
+  ring_end_uint32 357913940 = 8 /\ ring_end_uint32 357913942 = 32 /\
+  c_queueHeaderLength + 357913942 * c_queueElementLen = 4294967328.
+Proof. vm_compute. repeat split. Qed.
 
 (* ---------------------------------------------------------------------------------------------- *)
 (* the initial free chain: the loop links slot i (at i*stride) to slot i+1, the last slot has no
@@ -867,4 +865,231 @@ Lemma initial_chain_spec num cpb :
 Proof.
   intros Hc Hn Hlt. unfold initial_chain, chain_spec.
   apply (chain_links_spec (Z.to_nat num) 0 num cpb Hc); lia.
+Qed.
+
+(* ---------------------------------------------------------------------------------------------- *)
+(* configurations the real code accepts.  VerifyConfig computes the percent sum in int and demands
+   sum = 100: no percentage can wrap the uint32 running sum of createBufferManager, every budget is an
+   honest share of the region, and the classes cannot outgrow the mapping — so the 36 bytes below
+   4 GiB need no guard.  What remains forced: size + 20 must not wrap (VerifyConfig only demands
+   size <= capacity) and the list headers alone must fit (VerifyConfig does not bound the number of pairs). *)
+Fixpoint sum_pct (pairs : list (Z * Z)) : Z :=
+  match pairs with [] => 0 | p :: r => snd p + sum_pct r end.
+
+Definition config_ok (memLen : Z) (pairs : list (Z * Z)) : Prop :=
+  0 <= memLen < 4294967296 /\                                  (* Config.ShareMemoryBufferCap is a uint32 *)
+  pairs <> [] /\                                               (* VerifyConfig: BufferSliceSizes not empty *)
+  Forall (fun p => 0 <= fst p <= memLen /\ 0 <= snd p) pairs /\ (* VerifyConfig: Size <= ShareMemoryBufferCap *)
+  sum_pct pairs = 100 /\                                       (* VerifyConfig: sum of Percent (in int) = 100 *)
+  (* forced by the proof, NOT enforced by the code: *)
+  Forall (fun p => fst p + c_bufferHeaderSize < 4294967296) pairs /\
+  c_bufferListHeaderSize * Z.of_nat (length pairs) + c_bufferManagerHeaderSize <= memLen.
+
+Lemma create_fbl_spec_fit num cpb memLen off m :
+  0 <= off -> 0 <= memLen < 4294967296 -> 0 <= cpb -> cpb + c_bufferHeaderSize < 4294967296 -> 0 <= num ->
+  off + c_bufferListHeaderSize + num * (cpb + c_bufferHeaderSize) <= memLen ->
+  match create_fbl num cpb memLen off m with
+  | Panic _ => False
+  | Err _ => True
+  | Ok (c, m') =>
+    1 <= num /\ 1 <= cpb /\
+    list_mem_size num cpb = c_bufferListHeaderSize + num * (cpb + c_bufferHeaderSize) /\
+    c = mk_class off num cpb /\
+    m' = write_list_header m off num ((num - 1) * (cpb + c_bufferHeaderSize)) cpb
+  end.
+Proof.
+  intros Hoff Hmem Hcpb Hs32 Hnum Hfit.
+  unfold create_fbl, create_fbl_gen.
+  destruct ((num =? 0) || (cpb =? 0)) eqn:E0; [exact I|].
+  assert (Hs : w32 (cpb + c_bufferHeaderSize) = cpb + c_bufferHeaderSize) by (apply w32_small; consts; lia).
+  assert (HP0 : 0 < num * (cpb + c_bufferHeaderSize)) by (apply Z.mul_pos_pos; consts; lia).
+  assert (HPt : 0 <= (num - 1) * (cpb + c_bufferHeaderSize)) by (apply Z.mul_nonneg_nonneg; consts; lia).
+  assert (HPl : (num - 1) * (cpb + c_bufferHeaderSize) <= num * (cpb + c_bufferHeaderSize))
+    by (apply Z.mul_le_mono_nonneg_r; consts; lia).
+  assert (Hn32 : 1 <= num <= num * (cpb + c_bufferHeaderSize)) by (consts; nia).
+  pose proof (list_mem_size_small num cpb ltac:(lia) ltac:(lia) ltac:(consts; lia)) as HA.
+  rewrite Hs, (w32_small (num - 1)) by (consts; lia).
+  rewrite (w32_small ((num - 1) * _)) by (consts; lia).
+  rewrite HA. cbv zeta.
+  remember (num * (cpb + c_bufferHeaderSize)) as P.
+  remember ((num - 1) * (cpb + c_bufferHeaderSize)) as T.
+  rewrite (w32_small memLen) by lia.
+  rewrite (w32_small (off + (c_bufferListHeaderSize + P))) by (consts; lia).
+  rewrite (w32_small (off + c_bufferListHeaderSize)) by (consts; lia).
+  destruct ((memLen <? off + (c_bufferListHeaderSize + P)) || (memLen <? off)
+            || (memLen <? c_bufferListHeaderSize + P)) eqn:E1; [exact I|].
+  destruct (off + (c_bufferListHeaderSize + P) <=? off + c_bufferListHeaderSize) eqn:E2; [exact I|].
+  assert (E3 : existsb (fun k => memLen <=? w32 (off + k)) create_offsets = false).
+  { unfold create_offsets. cbn [existsb]. rewrite !w32_small by (consts; lia). consts; lia. }
+  rewrite E3.
+  destruct (memLen <? off + (c_bufferListHeaderSize + P)) eqn:E4; [consts; lia|].
+  replace (off + (c_bufferListHeaderSize + P) - (off + c_bufferListHeaderSize)) with P by ring.
+  subst P T. rewrite chain_init_ok_true by (consts; lia). cbn [negb].
+  repeat split; try lia.
+Qed.
+
+Lemma sum_pct_nonneg pairs : Forall (fun p : Z * Z => 0 <= snd p) pairs -> 0 <= sum_pct pairs.
+Proof. induction 1; cbn [sum_pct]; lia. Qed.
+
+Lemma length_le_sum_pct pairs : Forall (fun p : Z * Z => 1 <= snd p) pairs -> Z.of_nat (length pairs) <= sum_pct pairs.
+Proof. induction 1; cbn [sum_pct length]; lia. Qed.
+
+Lemma create_loop_spec_config pairs : forall rc memLen off sum m,
+  0 <= rc < 4294967296 -> 0 <= memLen < 4294967296 -> 0 <= off -> 0 <= sum ->
+  sum + sum_pct pairs <= 100 ->
+  Forall (fun p => 0 <= fst p /\ fst p + c_bufferHeaderSize < 4294967296 /\ 0 <= snd p) pairs ->
+  100 * (off + c_bufferListHeaderSize * Z.of_nat (length pairs)) + rc * sum_pct pairs <= 100 * memLen ->
+  match create_loop pairs rc memLen off sum m with
+  | Panic _ => False
+  | Err _ => True
+  | Ok (cs, off', m') =>
+      laid_out off cs off' /\ off <= off' /\ off' <= Z.max off memLen /\
+      map cl_capPerBuffer cs = map fst pairs /\
+      (forall a, a < off \/ off' <= a -> m' a = m a) /\
+      (pairs <> [] -> off' <= memLen) /\
+      Forall (fun p => 1 <= snd p) pairs /\
+      (forall m2, (forall a, off <= a < off' -> m2 a = m' a) -> map_loop (length pairs) memLen off m2 = Ok cs)
+  end.
+Proof.
+  unfold create_loop.
+  induction pairs as [|[size pct] rest IH]; intros rc memLen off sum m Hrc Hmem Hoff Hsum Hle Hall Hbud.
+  { cbn. repeat split; try lia. intros H; congruence. constructor. }
+  inversion Hall as [|p l Hsz Hrest]; subst p l. cbn [fst snd] in Hsz. destruct Hsz as (Hsz0 & Hsz32 & Hpct).
+  cbn [sum_pct snd length] in Hle, Hbud.
+  assert (Hsr : 0 <= sum_pct rest).
+  { apply sum_pct_nonneg. eapply Forall_impl; [|exact Hrest]. cbn. intros a Ha; lia. }
+  cbn [create_loop_gen]. cbv zeta.
+  rewrite (w32_small (sum + pct)) by lia.
+  destruct (c_percentSumMax <? sum + pct); [exact I|].
+  rewrite (w32_small (size + c_bufferHeaderSize)) by (consts; lia).
+  destruct (size + c_bufferHeaderSize =? 0) eqn:Ez; [consts; lia|].
+  (* the budget of this class is an honest share: no uint64 / uint32 wrap *)
+  assert (Hrp : 0 <= rc * pct) by (apply Z.mul_nonneg_nonneg; lia).
+  assert (Hrp2 : rc * pct <= rc * 100) by (apply Z.mul_le_mono_nonneg_l; lia).
+  assert (Hw64 : w64 (rc * pct) = rc * pct) by (unfold w64; apply Z.mod_small; lia).
+  rewrite Hw64.
+  assert (HXle : rc * pct / c_percentDivisor <= rc).
+  { consts. apply Z.div_le_upper_bound; lia. }
+  assert (HX0 : 0 <= rc * pct / c_percentDivisor) by (consts; apply Z.div_pos; lia).
+  assert (HX100 : c_percentDivisor * (rc * pct / c_percentDivisor) <= rc * pct) by (consts; apply Z.mul_div_le; lia).
+  rewrite (w32_small (rc * pct / c_percentDivisor)) by lia.
+  remember (rc * pct / c_percentDivisor) as X.
+  remember (X / (size + c_bufferHeaderSize)) as num.
+  assert (Hnum : 0 <= num) by (subst num; apply Z.div_pos; consts; lia).
+  assert (Hprod : num * (size + c_bufferHeaderSize) <= X).
+  { subst num. rewrite Z.mul_comm. apply Z.mul_div_le. consts; lia. }
+  rewrite Z.mul_add_distr_l in Hbud.
+  assert (Hrs : 0 <= rc * sum_pct rest) by (apply Z.mul_nonneg_nonneg; lia).
+  remember (num * (size + c_bufferHeaderSize)) as P.
+  assert (Hfit : off + c_bufferListHeaderSize + P <= memLen) by (consts; lia).
+  pose proof (create_fbl_spec_fit num size memLen off m Hoff Hmem Hsz0 Hsz32 Hnum ltac:(subst P; exact Hfit)) as Hf.
+  unfold create_fbl in Hf.
+  destruct (create_fbl_gen chain_init_ok num size memLen off m) as [[c m1]|e|p]; [|exact I|exact Hf].
+  destruct Hf as (Hn1 & Hc1 & HA & Hc & Hm1).
+  rewrite HA. rewrite <- HeqP.
+  assert (HP0 : 0 < P) by (subst P; apply Z.mul_pos_pos; consts; lia).
+  rewrite (w32_small (off + _)) by (consts; lia).
+  specialize (IH rc memLen (off + (c_bufferListHeaderSize + P)) (sum + pct) m1
+                 Hrc Hmem ltac:(consts; lia) ltac:(lia) ltac:(lia) Hrest ltac:(consts; lia)).
+  destruct (create_loop_gen chain_init_ok rest rc memLen (off + (c_bufferListHeaderSize + P)) (sum + pct) m1)
+    as [[[cs off'] m']|e|p]; [|exact I|exact IH].
+  destruct IH as (Hlay & Hle' & Hin & Hmap & Hframe & _ & Hp1 & Hml).
+  assert (Hend : class_end c = off + (c_bufferListHeaderSize + P)).
+  { subst c. unfold class_end, mk_class. cbn [cl_regionOff cl_regionLen]. subst P. ring. }
+  assert (Hoff' : off' <= memLen) by (consts; lia).
+  assert (Hpct1 : 1 <= pct).
+  { destruct (Z.eq_dec pct 0) as [->|Hnz]; [|lia].
+    rewrite Z.mul_0_r in HeqX. consts. rewrite Z.div_0_l in HeqX by lia. lia. }
+  split; [|split; [|split; [|split; [|split; [|split; [|split]]]]]].
+  - cbn [laid_out]. split; [|split].
+    + subst c. unfold class_wf, mk_class. cbn [cl_off cl_cap cl_capPerBuffer].
+      split; [reflexivity|]. consts; lia.
+    + subst c. reflexivity.
+    + rewrite Hend. exact Hlay.
+  - consts; lia.
+  - consts; lia.
+  - cbn [map fst]. rewrite Hmap. subst c. reflexivity.
+  - intros a Ha. rewrite Hframe by (consts; lia). subst m1.
+    apply write_list_header_frame; consts; lia.
+  - intros _. exact Hoff'.
+  - constructor; [exact Hpct1|exact Hp1].
+  - intros m2 Hm2. cbn [length map_loop]. rewrite (w32_small off) by (consts; lia).
+    rewrite (map_fbl_after_create m m2 off num size memLen) by
+      (try (consts; lia); try (subst P; exact Hfit);
+       intros a Ha; rewrite Hm2 by (consts; lia); rewrite Hframe by (consts; lia); subst m1; reflexivity).
+    unfold mk_class at 1 2. cbn [cl_cap cl_capPerBuffer].
+    rewrite HA. rewrite <- HeqP.
+    rewrite (w32_small (off + _)) by (consts; lia).
+    rewrite Hml by (intros a Ha; apply Hm2; consts; lia). subst c. reflexivity.
+Qed.
+
+Lemma create_bm_spec_config pairs memLen m0 :
+  config_ok memLen pairs ->
+  match create_bm pairs memLen m0 with
+  | Err _ => True
+  | Panic _ => False
+  | Ok (cs, m') => layout_ok pairs memLen cs /\ map_bm memLen m' = Ok cs
+  end.
+Proof.
+  intros (Hmem & Hne & Hall & Hsum & Hs32 & Hhdr).
+  unfold create_bm, create_bm_gen.
+  destruct (memLen <=? 0) eqn:E0; [exact I|].
+  remember (Z.of_nat (length pairs)) as n.
+  assert (Hn0 : 0 <= n) by lia.
+  assert (Hrc : region_cap n memLen = memLen - c_bufferListHeaderSize * n - c_bufferManagerHeaderSize).
+  { unfold region_cap, w64. apply Z.mod_small. consts; lia. }
+  rewrite Hrc.
+  assert (Hall' : Forall (fun p => 0 <= fst p /\ fst p + c_bufferHeaderSize < 4294967296 /\ 0 <= snd p) pairs).
+  { apply Forall_forall. intros p Hin.
+    rewrite Forall_forall in Hall, Hs32. specialize (Hall p Hin). specialize (Hs32 p Hin). lia. }
+  pose proof (create_loop_spec_config pairs (memLen - c_bufferListHeaderSize * n - c_bufferManagerHeaderSize) memLen
+                c_bufferManagerHeaderSize 0 (upd m0 0 (w16 n))
+                ltac:(consts; lia) Hmem ltac:(consts; lia) ltac:(lia) ltac:(lia) Hall'
+                ltac:(rewrite Hsum, <- Heqn; consts; lia)) as Hl.
+  unfold create_loop in Hl.
+  destruct (create_loop_gen chain_init_ok pairs _ memLen c_bufferManagerHeaderSize 0 _)
+    as [[[cs off'] m']|e|p]; [|exact I|exact Hl].
+  destruct Hl as (Hlay & Hle & _ & Hmap & Hframe & Hin & Hp1 & Hml).
+  specialize (Hin Hne).
+  assert (Hn100 : n <= 100) by (subst n; rewrite <- Hsum; apply length_le_sum_pct; exact Hp1).
+  destruct pairs as [|p0 rest]; [congruence|].
+  destruct (memLen <=? c_bmCapOffset) eqn:E1; [consts; lia|].
+  split; [eapply laid_out_layout_ok; eauto|].
+  unfold map_bm.
+  destruct ((memLen <=? c_bmCapOffset) || (memLen <=? 0)) eqn:E2; [lia|].
+  rewrite upd_same.
+  rewrite (upd_other _ c_bmCapOffset _ 0) by (consts; lia).
+  rewrite Hframe by (consts; lia). rewrite upd_same.
+  assert (Hn1 : 1 <= n) by (subst n; cbn [length]; lia).
+  assert (Hw16 : w16 (w16 n) = n) by (unfold w16; rewrite Z.mod_mod by lia; apply Z.mod_small; lia).
+  rewrite Hw16.
+  rewrite (w32_small (off' - _)) by (consts; lia).
+  destruct ((memLen <? c_bufferManagerHeaderSize + (off' - c_bufferManagerHeaderSize)) || (n =? 0)) eqn:E3; [lia|].
+  subst n. rewrite Nat2Z.id.
+  apply Hml. intros a Ha. apply upd_other. consts; lia.
+Qed.
+
+Lemma buffers_config pairs memLen m0 : config_ok memLen pairs -> buffers_result_ok pairs memLen m0.
+Proof.
+  intros H. unfold buffers_result_ok. pose proof (create_bm_spec_config pairs memLen m0 H) as Hc.
+  destruct (create_bm pairs memLen m0) as [[cs m']|e|p]; [exact (proj1 Hc)|exact I|exact Hc].
+Qed.
+
+Lemma peer_view_config pairs memLen m0 cs m' :
+  config_ok memLen pairs -> create_bm pairs memLen m0 = Ok (cs, m') -> map_bm memLen m' = Ok cs.
+Proof.
+  intros H Hc. pose proof (create_bm_spec_config pairs memLen m0 H) as Hs. rewrite Hc in Hs. exact (proj2 Hs).
+Qed.
+
+(* VerifyConfig rejects the small-sizes witness (its percentages sum to 4294967318 in int, not 100) and
+   accepts the division-by-zero witness: capacity 2^32-1 >= 1 MiB, one size <= capacity, percent 100 *)
+Lemma wit_caseB_rejected_by_VerifyConfig : sum_pct wit_caseB <> 100.
+Proof. vm_compute. discriminate. Qed.
+Lemma wit_div0_accepted_by_VerifyConfig :
+  1048576 <= wit_mem < 4294967296 /\ wit_div0 <> [] /\
+  Forall (fun p => 0 <= fst p <= wit_mem /\ 0 <= snd p) wit_div0 /\ sum_pct wit_div0 = 100 /\
+  c_bufferListHeaderSize * Z.of_nat (length wit_div0) + c_bufferManagerHeaderSize <= wit_mem.
+Proof.
+  unfold wit_mem, wit_div0. split; [lia|]. split; [discriminate|]. split; [repeat constructor; cbn; lia|].
+  split; [reflexivity|]. cbn [length]. consts. lia.
 Qed.
